@@ -474,8 +474,14 @@ fn parse_name<T: Pep508Url>(cursor: &mut Cursor) -> Result<PackageName, Pep508Er
                 }
             }
             Some(_) | None => {
-                return Ok(PackageName::new(name)
-                    .expect("`PackageName` validation should match PEP 508 parsing"));
+                // The scanner above only rejects trailing punctuation at the end of the input;
+                // `name- >=1` or `name_[extra]` get here with an invalid name.
+                return PackageName::new(name).map_err(|err| Pep508Error {
+                    message: Pep508ErrorSource::String(err.to_string()),
+                    start,
+                    len: cursor.pos() - start,
+                    input: cursor.to_string(),
+                });
             }
         }
     }
